@@ -60,7 +60,7 @@ def run(prop, tier):
         paths, metas, lst = F.make_corpus(os.path.join(wd, "corpus"), nf, first=400000, force=["events"])
         # (1)+(2): online monitors on histories (asan flavour) -- c13 profile has save_twice and round trips
         out = os.path.join(wd, "online")
-        hargs = ["--profile", "c13", "--maxops", "30", "--dump-final", "--maxdesc", "255", "--wildpct", "35", "--rebuild", "1"]   # 35 % of the histories are wild (size-constructed frames, hostile edits)
+        hargs = ["--profile", "c13", "--maxops", "30", "--dump-final", "--maxdesc", "255", "--wildpct", "35", "--rebuild", "1", "--blanknames", "1"]   # 35 % of the histories are wild (size-constructed frames, hostile edits)
         C.run_driver(asan, "hist", nh, out, args=hargs)
         R0 = C.parse_out(out)
         R0.workload = dict(profile="c13", args=hargs, first=0, count=nh)
